@@ -29,7 +29,7 @@ RULE = ("one run = one seeded history on a Hypergraph or DirectedHypergraph with
 TIERS = {"quick": {"runs": 6000, "wall_cap": 240, "det_seeds": 12, "min_tests": 500},
          "thorough": {"runs": 80000, "wall_cap": 3000, "det_seeds": 40, "min_tests": 1500}}
 
-EXTRA = {"H": ["d_subnodes", "d_suborders", "d_subedges", "d_lcc"], "D": ["d_subedges"]}
+EXTRA = {"H": ["d_subnodes", "d_suborders", "d_subedges", "d_lcc", "d_set_inc_md"], "D": ["d_subedges", "d_set_inc_md"]}
 
 
 def propose(g, model, name):
@@ -62,6 +62,12 @@ def propose(g, model, name):
         return op
     if name == "d_lcc":
         return {"op": name}
+    if name == "d_set_inc_md":
+        f = g.present_frag(model)
+        if f is None:
+            return None
+        key = model.key(f)
+        return {"op": name, "e": f["e"], "n": r.choice(sorted(model.knodes(key), key=tag)), "md": g.md(True)}
     return None
 
 
@@ -252,8 +258,20 @@ def make_handlers(stats):
         stats["exhaustive_selections"] = stats.get("exhaustive_selections", 0) + n
         return n
 
+    def set_inc_md(w, a, op):
+        """Not an extraction: a mutation of the per-incidence metadata (the reference model does not track it; copy()
+        must carry it and keep it independent)."""
+        obj, model = w.actors[a]
+        e = tuple(op["e"]) if w.kind == "H" else (tuple(op["e"][0]), tuple(op["e"][1]))
+        try:
+            obj.set_incidence_metadata(e, op["n"], json.loads(json.dumps(op["md"])))
+            stats["incidence_metadata_set"] = stats.get("incidence_metadata_set", 0) + 1
+        except Exception:
+            stats["incidence_metadata_rejected"] = stats.get("incidence_metadata_rejected", 0) + 1
+        return "inc"
+
     return {"d_subnodes": wrap(subnodes), "d_suborders": wrap(suborders), "d_subedges": wrap(subedges),
-            "d_lcc": wrap(lcc), "d_exhaustive": wrap(exhaustive)}
+            "d_lcc": wrap(lcc), "d_exhaustive": wrap(exhaustive), "d_set_inc_md": set_inc_md}
 
 
 def execute(case):
@@ -272,7 +290,7 @@ def execute(case):
 
     def on_step(w, a, op, outcome, exc):
         # runs after the op: compare the others with what they were after the previous step
-        cur = [digest(O.observe(kind, obj, w.U, [])) for obj, m in w.actors]
+        cur = [digest([O.observe(kind, obj, w.U, []), _inc_md(obj)]) for obj, m in w.actors]
         prev = Hook.pre
         if op["op"] == "copy":
             src, new = cur[a], cur[-1]
@@ -300,6 +318,15 @@ def execute(case):
         stats.get("extractions_after_removal", 0) >= 1 or stats.get("copies", 0) >= 1)
     res["sample"] = hist.sample_of(case)
     return res
+
+
+def _inc_md(obj):
+    """Per-incidence metadata through the public getter, canonical."""
+    try:
+        d = obj.get_all_incidences_metadata()
+        return sorted([repr(k), json.dumps(v, sort_keys=True, default=repr)] for k, v in d.items())
+    except Exception as e:  # noqa
+        return "!EXC:" + type(e).__name__
 
 
 def _as_model_obs(kind, obj, w):
